@@ -113,6 +113,12 @@ def explore(case):
                 quats.append(ref.quat_of(ax * th, s))
             if th == 0:
                 break
+    # attitudes inside the 3-2-1 gimbal band (pitch within 1e-3 rad of +-90 deg) with non-zero roll: the model must not depend on how an
+    # Euler decomposition behaves there
+    for sgn_ in (1.0, -1.0):
+        for d_ in (5e-4, 1e-5):
+            Rg = ref.R_from_euler321([0.3, sgn_ * (math.pi / 2 - d_), 0.4])
+            quats.append(ref.quat_of(ref.logm_rot(Rg), 1))
     vbs = [np.zeros(3), np.array([1.0, -2.0, 3.0]), alpha.generic_vec(seed, 3)]
     ws = [np.zeros(3), np.array([0.3, -0.2, 0.5]), alpha.generic_vec(seed + 1, 3)]
     hover = math.sqrt(d["m"] * d["g"] / 4 / d["CT"])
@@ -122,7 +128,10 @@ def explore(case):
     if tier != "thorough" and pname.startswith("spin_"):
         quats, vbs, ws = quats[::4], vbs[:2], ws[:2]
     for q, vb, w, om, z in itertools.product(quats, vbs, ws, oms, zs):
-        for du in (-100.0, 0.0, 100.0, np.array([100.0, -100.0, 50.0, -20.0]), np.array([1.0, -4.0, 9.0, -0.25])):
+        for du in (-100.0, 0.0, 100.0, np.array([100.0, -100.0, 50.0, -20.0]), np.array([1.0, -4.0, 9.0, -0.25]), "relative"):
+            if isinstance(du, str):
+                # commands that differ from the speeds by parts per million (the end of a spin-up): still (cmd - omega) / tau
+                du = om * np.array([1e-6, -3e-6, 2e-7, -1e-9]) if maxabs(om) > 0 else np.array([1e-6, -3e-6, 2e-7, -1e-9])
             u = om + du
             x = np.concatenate([[0.4, -1.2, z], vb, q, w, om])
             res.count("evaluations")
@@ -199,6 +208,18 @@ def explore(case):
         a2 = np.array(f(xt, oms[2] + 50.0, pv), dtype=float)
         if not np.array_equal(a1, a2):
             res.fail(site="quadrotor.p_defaults", clause="positional_parameter_table_equals_named", cls="-", detail=dict(params=pname), sub="model", case=case)
+    # quaternions slightly off the unit sphere (what a fixed-step integrator hands to the model): q . q' = 0 holds for the exact kinematics
+    # q' = q (0, w) / 2 whatever the norm, so the norm neither grows nor is "corrected" behind the integrator's back
+    for q in quats[::2]:
+        for sc_q in (1 + 1e-3, 1 - 1e-3, 1 + 1e-7, 1 - 1e-5, 1.02):
+            for w in ws[1:]:
+                xq = np.concatenate([[0.4, -1.2, 2.0], vbs[1], q * sc_q, w, oms[1]])
+                res.count("evaluations")
+                xdq = np.array(f(xq, oms[1], pv), dtype=float).reshape(-1)
+                qq = q * sc_q
+                if not np.all(np.isfinite(xdq)) or abs(float(qq @ xdq[6:10])) > 1e-12 * (1 + maxabs(w)):
+                    res.fail(site="quadrotor.f", clause="quaternion_norm_preserved", cls="off_unit_sphere", detail=dict(params=pname, q=qq, scale=sc_q, w=w, q_dot=xdq[6:10], q_qdot=float(qq @ xdq[6:10])), sub="model", case=case)
+                    break
     # every derive_model() call hands out its own default tables: customising one vehicle (sim() and the scripts write into the table in
     # place) must not change the defaults of a model derived afterwards
     if pname == "default":
